@@ -105,7 +105,8 @@ CLAIMS["C13"] = dict(
           "nil; NewRoute's chains are built over the route's final list, options are applied in order and all of them, and NewRoute never writes into the router's middleware "
           "array (frame obligation; this exposed a genuine sharing defect, repaired). New wires the four special handlers (no-route, no-method, automatic OPTIONS, trailing-slash redirect) "
           "through applyMiddleware with their own scope over the router's final middleware list; ServeHTTP runs route.hall (the chain of global and route middleware) on both the direct "
-          "and the ignored-trailing-slash path. Not decided: DefaultOptions, middleware bodies."),
+          "and the ignored-trailing-slash path. Cross-check, bounded only: standins/chain_test.go records the order in which middleware and handlers really execute for all 343 scope "
+          "assignments of three global middleware, 0..2 route middleware and all handler kinds, tying the abstract app(m,h) of the contracts to execution. Not decided: DefaultOptions, middleware bodies."),
     design_ref="DESIGN.md section 4 C13, section 9",
     note=TRUSTED + " Assumed contracts: MiddlewareFunc values are abstract (app); RouteOption implementations outside the package obey the option contract.")
 CLAIMS["C18"] = dict(
